@@ -72,6 +72,10 @@ def precond_rep(obj):
     return obj.misc["rep"]
 def precond_norep(obj):
     return not obj.misc["rep"]
+def precond_nop(obj):
+    # with REX.B, 90 is xchg r8,rax
+    B = obj.misc["REX"][3] if obj.misc["REX"] else 0
+    return not obj.misc["rep"] and B==0
 def precond_opdsz(obj):
     return obj.misc["opdsz"]
 def precond_noopdsz(obj):
@@ -101,7 +105,7 @@ def precond_32bits(obj):
 # -------------
 
 
-@ispec_ia32(" 8>[ {90} ]", mnemonic="NOP", type=type_data_processing,__obj=precond_norep)
+@ispec_ia32(" 8>[ {90} ]", mnemonic="NOP", type=type_data_processing,__obj=precond_nop)
 @ispec_ia32(" 8>[ {90} ]", mnemonic="PAUSE", type=type_cpu_state,__obj=precond_rep)
 def ia32_nop(obj):
     pass
